@@ -8,6 +8,7 @@ package main
 import (
 	"context"
 	"math/rand"
+	"sort"
 
 	"github.com/yaricom/goNEAT/v4/neat"
 	"github.com/yaricom/goNEAT/v4/neat/genetics"
@@ -24,11 +25,15 @@ type JChampSpecies struct {
 	SortChamp *int    `json:"sortChamp"` // position BEFORE sorting of findChampion's answer
 	SortFirst bool    `json:"sortFirst"` // the answer is Organisms[0] after the call
 	Order     []int   `json:"order"`     // positions BEFORE the call of the members, in the order AFTER it
+	Max       uint64  `json:"max"`       // ComputeMaxAndAvgFitness on the member list before sorting
+	Avg       uint64  `json:"avg"`
 }
 
 type JChampOut struct {
 	Species []JChampSpecies `json:"species"`
 	After   *JPop           `json:"after"`
+	ByFit   []int           `json:"byFit"`     // species positions in the order after sort.Sort(ByOrganismFitness(copy))
+	ByFitRv []int           `json:"byFitDesc"` // ... after sort.Sort(sort.Reverse(ByOrganismFitness(copy)))
 }
 
 func opChampQuery(g *G) (interface{}, []uint64, int, interface{}) {
@@ -102,6 +107,8 @@ func opChampQuery(g *G) (interface{}, []uint64, int, interface{}) {
 			js.Damaged = append(js.Damaged, o.CheckChampionChildDamaged())
 		}
 		js.Size = sp.Size()
+		mx, av := sp.ComputeMaxAndAvgFitness()
+		js.Max, js.Avg = bits(mx), bits(av)
 		if c := sp.FindChampion(); c != nil {
 			if q, ok := posBefore[c]; ok {
 				js.Public = &q
@@ -128,6 +135,21 @@ func opChampQuery(g *G) (interface{}, []uint64, int, interface{}) {
 		out.Species = append(out.Species, js)
 	}
 	out.After = dumpPop(pop)
+	spPos := map[*genetics.Species]int{}
+	for i, sp := range pop.Species {
+		spPos[sp] = i
+	}
+	asc := append([]*genetics.Species{}, pop.Species...)
+	sort.Sort(genetics.ByOrganismFitness(asc))
+	desc := append([]*genetics.Species{}, pop.Species...)
+	sort.Sort(sort.Reverse(genetics.ByOrganismFitness(desc)))
+	out.ByFit, out.ByFitRv = []int{}, []int{}
+	for _, sp := range asc {
+		out.ByFit = append(out.ByFit, spPos[sp])
+	}
+	for _, sp := range desc {
+		out.ByFitRv = append(out.ByFitRv, spPos[sp])
+	}
 	in := map[string]interface{}{"pop": before, "landscape": landscape, "variant": variant, "epochs": done, "origin": sc.origin}
 	return in, nil, 0, out
 }
